@@ -1131,11 +1131,17 @@ class MyPyAstVisitor:
         # Builtins
         elif isinstance(mypy_type, mp_types.Instance):
             type_name = mypy_type.type.name
-            if type_name in {"int", "str", "bool", "float"}:
+            # A class of the analysed package that is merely named like a builtin ("Mapping", "float") is not one
+            is_builtin = mypy_type.type.fullname in {
+                f"builtins.{type_name}",
+                f"typing.{type_name}",
+                f"collections.abc.{type_name}",
+            }
+            if is_builtin and type_name in {"int", "str", "bool", "float"}:
                 return sds_types.NamedType(name=type_name, qname=mypy_type.type.fullname)
 
             # Iterable builtins
-            elif type_name in {"tuple", "list", "set", "Sequence", "Collection"}:
+            elif is_builtin and type_name in {"tuple", "list", "set", "Sequence", "Collection"}:
                 types = [self.mypy_type_to_abstract_type(arg) for arg in mypy_type.args]
                 match type_name:
                     case "tuple":
@@ -1149,7 +1155,7 @@ class MyPyAstVisitor:
                     case "Collection":
                         return sds_types.ListType(types=types)
 
-            elif type_name in {"dict", "Mapping"}:
+            elif is_builtin and type_name in {"dict", "Mapping"}:
                 return sds_types.DictType(
                     key_type=self.mypy_type_to_abstract_type(mypy_type.args[0]),
                     value_type=self.mypy_type_to_abstract_type(mypy_type.args[1]),
